@@ -8,7 +8,8 @@ import HpoModel.Linkage
       order.  The distance callback (the same on both sides):
         both sets singletons {x},{y}  -> the table entry of the pair of positions of x and y
         otherwise                     -> `mix A B` of the two sorted id vectors (see below)
-      prints  `LINK <method> n=<n> merges=<m>`, per merge `M <lhs> <rhs> f32:<distance> <size>`,
+      prints  `LINK <method> n=<n> merges=<m>`, per merge `M <lhs> <rhs> b32:<distance bits> <size>`
+              (compared exactly: the model runs the same IEEE binary32 operations),
               `IDX <indicies()>`, per callback call `CB <#pairs> <A/B> …`, and `oracle ok`
               (the harness validates its own output by an independent oracle there).
 -/
@@ -44,7 +45,7 @@ def showCb (c : List (List Nat × List Nat)) : String :=
   String.intercalate " " (("CB " ++ toString c.length) :: c.map showPair)
 
 def showCluster (c : Cluster Float32) : String :=
-  String.intercalate " " ["M", toString c.lhs, toString c.rhs, showF32 c.dist, toString c.size]
+  String.intercalate " " ["M", toString c.lhs, toString c.rhs, "b32:" ++ padHex 8 c.dist.toBits.toNat, toString c.size]
 
 def f32lt (a b : Float32) : Bool := a < b
 def f32mean (a b : Float32) : Float32 := (a + b) / 2.0
